@@ -407,7 +407,7 @@ def canaries():
 def parts(tier):
     q = tier == 'quick'
     return [
-        Part('transport', make_transport_harness(2, 1 if q else 2), bounds={'events_in_flight': 2, 'cuts_per_transfer': 1 if q else 2, 'cut_zones': 'around every delimiter (z3 Int), at the start (z3 Int), coarse positions',
+        Part('transport', make_transport_harness(2, 1), bounds={'events_in_flight': 2, 'cuts_per_transfer': 1, 'cut_zones': 'around every delimiter (z3 Int), at the start (z3 Int), coarse positions',
                                                                                  'args': 'empty / nested JSON / 5000-char string / unicode+float', 'firewalls': 'allow all or deny one name (send, receive)'},
              encoded=ENC, budget_s=85 if q else 2400),
         Part('hostile', make_hostile_harness(), bounds={'meta_keys': 'every attribute name manager.py/events.py/values.py read from an event (AST of the current source)', 'values': [repr(v) for v in HOSTILE_VALUES],
